@@ -66,6 +66,9 @@ type epochInfo struct {
 	stable     map[string]bool  // stable ghosts (changed only by contracts naming them)
 	ghostSet   map[string]bool  // ghosts named by `sets` of contracts reachable in the havoced region
 	younger    string           // call havoc limited to objects at least as young as this root id term
+	object     string           // ... or to the object with this root id term
+	kinds      map[string]bool  // ... or to these heap kinds (any object)
+	clockBefore string          // allocation clock before the call (objects younger than it are the callee's)
 	entryClock string           // loop havoc: allocation clock at loop entry (frame covers older objects only)
 	newClock   string           // allocation clock after the havoc (loaded pointers are not younger)
 	conds   []string
@@ -88,6 +91,28 @@ func (ei *epochInfo) affected(key string) bool {
 
 func (ei *epochInfo) extOnly(key string) bool { return ei.all || ei.unknown[key] }
 
+// restrict: for a call havoc with an assumed frame, the condition under which cell p of heap key
+// may have changed ("" = no restriction: any non-private cell may change).
+func (ei *epochInfo) restrict(key string) string {
+	if ei.younger == "" && ei.object == "" && ei.kinds == nil {
+		return ""
+	}
+	if ei.kinds[key] {
+		return ""
+	}
+	var alts []string
+	if ei.younger != "" {
+		alts = append(alts, fmt.Sprintf("(>= (root p) %s)", ei.younger))
+	}
+	if ei.object != "" {
+		alts = append(alts, fmt.Sprintf("(= (root p) %s)", ei.object))
+	}
+	if ei.clockBefore != "" {
+		alts = append(alts, fmt.Sprintf("(> (root p) %s)", ei.clockBefore))
+	}
+	return "(or " + strings.Join(alts, " ") + " false)"
+}
+
 // shared state between a function's VC and its inlined callees
 type shared struct {
 	body        *strings.Builder
@@ -95,6 +120,7 @@ type shared struct {
 	heapKeys    map[string]string // key -> sort of values ("RAW:" prefix = complete sort)
 	heapVer     int
 	structs     map[string]*types.Struct
+	structNames map[string]string
 	structOrd   []string
 	strLits     map[string]string
 	globals     map[string]string
@@ -214,9 +240,18 @@ func (v *VC) sortOf(t types.Type) string {
 }
 
 func (v *VC) structSort(t types.Type, u *types.Struct) string {
-	name := "S_" + sanitize(types.TypeString(t, pkgQual))
-	if len(name) > 80 {
-		name = fmt.Sprintf("%s_%d", name[:60], len(name))
+	full := types.TypeString(t, nil)
+	name, seen := v.structNames[full]
+	if !seen {
+		name = "S_" + sanitize(types.TypeString(t, pkgQual))
+		if len(name) > 80 {
+			name = fmt.Sprintf("%s_%d", name[:60], len(name))
+		}
+		// different packages may share a name (sync.Mutex / internal/sync.Mutex)
+		for _, taken := v.structs[name]; taken; _, taken = v.structs[name] {
+			name += "x"
+		}
+		v.structNames[full] = name
 	}
 	if _, ok := v.structs[name]; !ok {
 		v.structs[name] = u
@@ -450,7 +485,7 @@ func (v *VC) resolve(key string, e int) string {
 		v.heapVer++
 		name = fmt.Sprintf("HE%d_%s", v.heapVer, sanitize(key))
 		v.declHeap(name, key)
-		v.emitFrame(key, name, par, ei.known[key], ei.extOnly(key), ei.entryClock, ei.newClock, ei.younger)
+		v.emitFrame(key, name, par, ei.known[key], ei.extOnly(key), ei.entryClock, ei.newClock, ei.restrict(key))
 	case "merge":
 		var ps []string
 		same := true
@@ -478,14 +513,14 @@ func (v *VC) resolve(key string, e int) string {
 }
 
 // emitFrame: relation between a havoced heap version and its predecessor.
-func (v *VC) emitFrame(key, nm, old string, known []string, extOnly bool, entryClock, newClock string, younger string) {
+func (v *VC) emitFrame(key, nm, old string, known []string, extOnly bool, entryClock, newClock string, mayChange string) {
 	srt := v.heapKeys[key]
 	if strings.HasPrefix(key, "ghost:") {
 		return
 	}
 	var conds []string
-	if extOnly && younger != "" {
-		conds = append(conds, fmt.Sprintf("(or (not (ext p)) (< (root p) %s))", younger))
+	if extOnly && mayChange != "" {
+		conds = append(conds, fmt.Sprintf("(or (not (ext p)) (not %s))", mayChange))
 	} else if extOnly {
 		conds = append(conds, "(not (ext p))")
 	}
@@ -622,18 +657,23 @@ func (v *VC) heapSet(h *Heap, key, term string) string {
 // havocAll models a call to code we know nothing about: every cell that is not a private local
 // may change; results of later loads are arbitrary (but never private pointers). Ghost state is
 // havoced too when ghosts is set (callee without any contract).
-func (v *VC) havocAll(h *Heap, ghosts bool) { v.havocYounger(h, ghosts, "") }
+func (v *VC) havocAll(h *Heap, ghosts bool) { v.havocFramed(h, ghosts, "", "", nil) }
 
-// havocYounger: like havocAll, but cells of objects older than the given root id keep their value
-// (assumed frame "modifies younger(x)": the callee writes only to x's object and younger ones).
 func (v *VC) havocYounger(h *Heap, ghosts bool, younger string) {
-	_, nw := v.advanceClock(h)
+	v.havocFramed(h, ghosts, younger, "", nil)
+}
+
+// havocFramed: a call whose (assumed) frame says it writes only to objects at least as young as
+// `younger`, to the object `object`, to cells of the heap kinds `kinds`, and to what it allocates.
+func (v *VC) havocFramed(h *Heap, ghosts bool, younger, object string, kinds map[string]bool) {
+	before, nw := v.advanceClock(h)
 	keys := make([]string, 0, len(h.m))
 	for k := range h.m {
 		keys = append(keys, k)
 	}
 	sort.Strings(keys)
-	ne := v.newEpoch(&epochInfo{kind: "havoc", parent: h.epoch, all: true, ghosts: ghosts, newClock: nw, stable: v.P.db.StableGhosts, younger: younger})
+	ei := &epochInfo{kind: "havoc", parent: h.epoch, all: true, ghosts: ghosts, newClock: nw, stable: v.P.db.StableGhosts, younger: younger, object: object, kinds: kinds, clockBefore: before}
+	ne := v.newEpoch(ei)
 	for _, k := range keys {
 		if k == clockKey || (strings.HasPrefix(k, "ghost:") && (!ghosts || v.P.db.StableGhosts[strings.TrimPrefix(k, "ghost:")])) {
 			continue
@@ -642,7 +682,7 @@ func (v *VC) havocYounger(h *Heap, ghosts bool, younger string) {
 		v.heapVer++
 		nm := fmt.Sprintf("H%d_%s", v.heapVer, sanitize(k))
 		v.declHeap(nm, k)
-		v.emitFrame(k, nm, old, nil, true, "", nw, younger)
+		v.emitFrame(k, nm, old, nil, true, "", nw, ei.restrict(k))
 		h.m[k] = nm
 	}
 	h.epoch = ne
